@@ -1333,6 +1333,23 @@ impl SimCondvar {
     }
   }
 
+  pub fn wait_timeout_while<'a, T, F>(&self, mut guard: MutexGuard<'a, T>, dur: std::time::Duration, mut condition: F) -> LockResult<(MutexGuard<'a, T>, SimWaitTimeoutResult)>
+  where
+    F: FnMut(&mut T) -> bool,
+  {
+    // in simulated time a timed wait is one scheduling point long: the condition is looked at before and after it
+    if !condition(&mut *guard) {
+      return Ok((guard, SimWaitTimeoutResult(false)));
+    }
+    match self.wait_timeout(guard, dur) {
+      Ok((mut g, _)) => {
+        let still = condition(&mut *g);
+        Ok((g, SimWaitTimeoutResult(still)))
+      }
+      Err(p) => Err(p),
+    }
+  }
+
   pub fn notify_one(&self) {
     if !sim_active() {
       self.inner.notify_one();
